@@ -209,6 +209,52 @@ def ping_loop_model(ctx, repo, rule):
            pl.loc)
 
 
+def refresh_loop_model(ctx, repo, rule):
+    """GeckoAsyncSpa._refresh_loop on the connection model: eight passes while the connection is open; the spa is connected
+    throughout, answers no ping during passes 2-3 (a short outage the manager rides out in CONNECTED), is 'not connected'
+    in pass 5.  The loop must keep running through all of it and refresh the block in every pass in which the spa is
+    connected and answering (1, 4, 6, 7, 8) - it is the only thing that repairs a value whose partial update was lost."""
+    from ..absint import Native, Obj, PyRaise, Undecided
+    from ..facts import ConnectionModel
+    rl = repo.method("GeckoAsyncSpa", "_refresh_loop")
+    cm = ConnectionModel(repo, connect=False)
+    it = cm.it
+    st = {"pass": 0, "refreshed": [], "events": []}
+    QUIET, OFFLINE, LAST = {2, 3}, {5}, 8
+    proto = Obj(None, {"get": Native(lambda a, k: Obj(None, {"channel": 10, "signal_strength": 33}, name="channel-reply"), "get")}, name="protocol")
+    cm.spa.attrs["_protocol"] = proto
+    sobj = it.getattr(cm.spa, "struct")
+    if isinstance(sobj, Obj):
+        sobj.attrs["get"] = Native(lambda a, k: (st["refreshed"].append(st["pass"]), True)[1], "struct.get")
+    inner_hook = it.call_hook
+
+    def hook(it_, node, callee, a, kw):
+        f = getattr(node, "func", None)
+        nm = f.id if isinstance(f, ast.Name) else (f.attr if isinstance(f, ast.Attribute) else "")
+        if nm in ("config_sleep", "sleep"):
+            st["pass"] += 1
+            return None
+        return inner_hook(it_, node, callee, a, kw)
+    it.call_hook = hook
+    it.attr_hook = lambda _i, b, a_: ((st["pass"] < LAST) if (b is cm.spa and a_ == "isopen") else
+                                      ((st["pass"] not in QUIET) if (b is cm.spa and a_ == "is_responding_to_pings") else
+                                       ((st["pass"] not in OFFLINE) if (b is cm.spa and a_ == "is_connected") else NotImplemented)))
+    try:
+        it.steps = 0
+        it.call(rl, cm.spa, [])
+        out = None
+    except PyRaise as e:
+        out = e.what
+    except Undecided as e:
+        raise AnalysisError(f"{rl.qual} on the connection model: {e}")
+    want = [1, 4, 6, 7]
+    ok = out is None and st["pass"] >= LAST and [p for p in st["refreshed"] if p < LAST] == want
+    ctx.ob(rule, f"{rl.qual}::keeps-refreshing-through-a-quiet-spell", ok,
+           f"{rl.qual}: {st['pass']} pass(es) made of {LAST} (outcome {out!r}); the block was refreshed in passes {st['refreshed']}, expected {want} (every pass in which the spa is connected and answering pings, "
+           f"before AND after a spell without answers): a refresh loop that ends when pings pause leaves a CONNECTED manager whose facade never catches up with changes whose partial update was lost", rl.loc,
+           sample={"rule": rule, "passes": st["pass"], "refreshed": st["refreshed"]})
+
+
 def check(ctx):
     repo = Repo()
     cg = callgraph(repo)
@@ -393,6 +439,7 @@ def check(ctx):
 
     # ---- R3 loss reported ---------------------------------------------------------------
     ping_loop_model(ctx, repo, "R3")
+    refresh_loop_model(ctx, repo, "R4")
     _o = rel[("CONNECTED", True, "RUNNING_PING_NO_RESPONSE")]
     ok = isinstance(_o.get("final"), str) and _o["final"].startswith("ERROR_") and "raises" not in _o
     ctx.ob("R3", "NO_RESPONSE::leaves-CONNECTED", ok, f"RUNNING_PING_NO_RESPONSE in CONNECTED leaves the manager in {_o.get('final')}: not an error state, the loss is not reported", he.loc)
